@@ -206,6 +206,52 @@ def run(ctx):
   ctx.trace_ok(replayed)
   ctx.leg('R', metrics=sum(len(v[: (3 if big else 1)]) for v in chosen.values()), layouts_enumerated=total_layouts, replays=replayed)
 
+  # ---- sibling configurations: the SAME batch (same shapes, dtypes, mask) evaluated through the jitted batch path under
+  # every configuration of a metric kind, one after the other and again in reverse order, in this one process: each
+  # instance must give the merge of ITS single-example statistics (instances differing in one field are different metrics)
+  sib = 0
+  by_kind = collections.defaultdict(list)
+  for key in sorted(groups, key=repr):
+    by_kind[key[0]].append(key)
+  for m, keys in sorted(by_kind.items()):
+    if len(keys) < 2:
+      continue
+    kind = 'sum' if m in SUM_METRICS else 'mean'
+    tables = {}
+    for key in keys:
+      tables[key] = {repr((it['c']['target'], it['c'].get('scores', it['c'].get('preds')), it['c'].get('d'))): it for it in groups[key]}
+    common = sorted(set.intersection(*[set(t) for t in tables.values()]))
+    if len(common) < 3:
+      continue
+    picks = [common[i] for i in sorted(rng.sample(range(len(common)), 3))]
+    c_first = tables[keys[0]][picks[0]]['c']
+    batch = {'y': np.array([tables[keys[0]][pk]['c']['target'] for pk in picks], np.int32),
+             'pred': np.array([tables[keys[0]][pk]['c'].get('scores', tables[keys[0]][pk]['c'].get('preds')) for pk in picks], np.float32)}
+    if m == 'per_domain_accuracy':
+      batch['domain_id'] = np.array([tables[keys[0]][pk]['c']['d'] for pk in picks], np.int32)
+    del c_first
+    for key in keys + keys[::-1]:
+      metric = c14.make_metric(metrics, tables[key][picks[0]]['c'], C)
+      comps = [components(tables[key][pk]['c'], tables[key][pk]['stat'], C) for pk in picks]
+      a = np.array([sum(cp[j]['a'] for cp in comps) for j in range(len(comps[0]))], np.float64)
+      w = np.array([sum(cp[j]['w'] for cp in comps) for j in range(len(comps[0]))], np.float64)
+      exp = a if kind == 'sum' else np.where(w == 0, 0., a / np.where(w == 0, 1, w))
+      cfg = dict(metric=type(metric).__name__, args={k: v for k, v in tables[key][picks[0]]['c'].items() if k in ('k', 'masked', 'banned', 'oov', 'eos')},
+                 batch={k: v.tolist() for k, v in batch.items()}, siblings=len(keys))
+      try:
+        got = np.asarray(metrics.evaluate_batch(metric, batch, batch['pred'], None).result(), np.float64).reshape(-1)
+      except Exception as ex:  # pylint: disable=broad-except
+        ctx.violation(f'siblings:{m}:exception:{type(ex).__name__}', f'{type(ex).__name__}: {ex} for {cfg}', replay={'cfg': cfg})
+        continue
+      sib += 1
+      ctx.case(key=('sib', m, repr(key)), nontrivial=True)
+      if got.shape != exp.shape or np.any(np.isnan(got)) or not np.allclose(got, exp, rtol=1e-6, atol=0):
+        ctx.violation(f'siblings:{m}', f'evaluate_batch gives {got.tolist()} but this configuration\'s single-example statistics merge to {exp.tolist()} '
+                      f'(evaluated after sibling configurations of the same metric class on the same batch) for {cfg}',
+                      replay={'cfg': cfg, 'expected': exp.tolist(), 'actual': got.tolist()})
+  ctx.trace_ok(sib)
+  ctx.leg('R', sibling_evaluations=sib)
+
   # ---- leg T: cross-entropy family, relational
   ev = []
   tol = intern.Tolerant(rtol=2e-5, atol=2e-6)
